@@ -379,6 +379,12 @@ def run(ctx):
                 # a *finite* shuffled pass (repeat=False) through the concurrent interface, stopped after k examples
                 ("concurrent_norepeat", 3, 2)]
         eargs.append({"root": str(ctx.scratch / f"c14_{i}"), "fmt": fmt, "eps": eps, "k": 7, "sizes": [12, 40] if not ctx.thorough else [12, 40, 160], "configs": cfgs})
+    # a pass that goes beyond the first batch of a reader with file_parallelism=None (one worker per core): more examples than two such
+    # batches hold, from datasets of three and six batches — the second and later batches are as bounded as the first
+    import os as _os
+    ncpu = _os.cpu_count() or 1
+    eargs.append({"root": str(ctx.scratch / "c14_long"), "fmt": ["npz", "fb"][ctx.seed % 2], "eps": 2, "k": 2 * ncpu * 2 + 3, "sizes": [3 * ncpu, 6 * ncpu],
+                  "configs": [("tf_norepeat", 0, None), ("concurrent", 0, ncpu)]})
     eres = child.call("harness.checks.c14", "run_e2e", eargs, timeout=900)
     nrun = 0
     for r in eres:
